@@ -743,3 +743,200 @@ def build_rot(tree):
 
 
 TARGETS['TC03rot'] = {'file': 'spatial.py', 'build': build_rot}
+
+
+# ============================================================================================== the constructor's frame loop
+def build_loop(tree):
+    """seg/sop.py `Segmentation.__init__`: the loop that emits the frames (segments outside, planes in sorted order inside),
+    which plane a frame takes its pixels and its PlanePositionSequence from, its dimension index value, when a frame is
+    skipped, how omitted planes leave the sort index, how encoded frames are gathered from a worker pool; and
+    `_get_nonempty_plane_indices`, `_get_pffg_item` (DimensionIndexValues)."""
+    fn = find_func(tree, 'Segmentation.__init__')
+    rows = []
+    outer = [n for n in ast.walk(fn) if isinstance(n, ast.For) and ast.unparse(n.target) == 'segment_number']
+    if len(outer) != 1:
+        raise Unsupported('`for segment_number in ...` not found')
+    ol = outer[0]
+    rows.append(('loop.outer.iter', ast.unparse(ol.iter)))
+    env = _simple_assigns(fn)
+    if 'segments_iterable' not in env:
+        raise Unsupported('segments_iterable is not assigned exactly once')
+    rows.append(('loop.segments_iterable', ast.unparse(env['segments_iterable'])))
+    if len(ol.body) != 1 or not isinstance(ol.body[0], ast.For):
+        raise Unsupported('the segment loop no longer contains exactly the plane loop')
+    il = ol.body[0]
+    rows.append(('loop.inner.target', ast.unparse(il.target)))
+    rows.append(('loop.inner.iter', ast.unparse(il.iter)))
+    it = il.iter
+    if not (isinstance(it, ast.Call) and ast.unparse(it.func) == 'enumerate' and len(it.args) == 2 and not it.keywords
+            and isinstance(it.args[1], ast.Constant) and isinstance(it.args[1].value, int)):
+        raise Unsupported('plane loop is no longer `enumerate(<sort index>, <int>)`')
+    texts = [f'/-- `Segmentation.__init__`: first value of `plane_dim_ind` (`{ast.unparse(it)}`) -/\n'
+             f'def frameEnumStart : Int := ({it.args[1].value} : Int)']
+    # which plane of the input array a (non-tiled) frame carries
+    pa = [s for s in ast.walk(il) if isinstance(s, ast.Assign) and ast.unparse(s.targets[0]) == 'plane_array'
+          and 'get_tile_array' not in ast.unparse(s.value)]
+    if len(pa) != 1:
+        raise Unsupported('plane_array of the stacked case is not assigned exactly once')
+    rows.append(('frame.plane_array', ast.unparse(pa[0].value)))
+    pf = [n for n in ast.walk(il) if isinstance(n, ast.Call) and ast.unparse(n.func) == 'self._get_pffg_item']
+    if len(pf) != 1 or pf[0].args:
+        raise Unsupported('frame loop: one keyword-only call of _get_pffg_item expected')
+    rows += [('frame.pffg.' + k.arg, ast.unparse(k.value)) for k in pf[0].keywords]
+    # when a frame is skipped
+    skip = [s for s in il.body if isinstance(s, ast.If) and ast.unparse(s.test) == 'segment_number is not None'
+            and len(s.body) == 1 and isinstance(s.body[0], ast.If) and any(isinstance(x, ast.Continue) for x in s.body[0].body)]
+    if len(skip) != 1 or skip[0].orelse or skip[0].body[0].orelse:
+        raise Unsupported('skip of empty frames of one segment not found')
+    if any(isinstance(x, ast.Continue) for s in il.body if s is not skip[0] for x in ast.walk(s)):
+        raise Unsupported('a second `continue` in the plane loop')
+    pos_skip, pos_pffg = il.body.index(skip[0]), [i for i, s in enumerate(il.body) if '_get_pffg_item' in ast.unparse(s)]
+    if len(pos_pffg) != 1 or pos_skip > pos_pffg[0]:
+        raise Unsupported('the skip no longer precedes the per-frame item')
+    src = ('if segment_number is not None:\n    if ' + ast.unparse(_Rename({'np.any(segment_array)': 'any_nonzero'}).visit(
+        ast.parse(ast.unparse(skip[0].body[0].test), mode='eval').body)) + ':\n        return True\nreturn False\n')
+    blk = ast.parse(src).body
+    texts.append(translate_block(blk, 'frameSkipped', [('segment_number', 'optint'), ('omit_empty_frames', 'bool'), ('any_nonzero', 'bool')], {},
+                                 doc='`Segmentation.__init__`, plane loop: is the frame of this segment and plane left out? '
+                                     '(`any_nonzero` = `np.any(segment_array)`)'))
+    # dimension index value of the position dimension, patient coordinate system
+    div = [s for s in ast.walk(il) if isinstance(s, ast.Assign) and ast.unparse(s.targets[0]) == 'dimension_index_values'
+           and isinstance(s.value, ast.List) and len(s.value.elts) == 1 and isinstance(s.value.elts[0], ast.Name)]
+    if len(div) != 1:
+        raise Unsupported('dimension_index_values = [<name>] of the patient case not found')
+    ret = ast.Return(value=div[0].value.elts[0])
+    ast.fix_missing_locations(ret)
+    texts.append(translate_block([ret], 'framePlaneIndexValue', [('plane_dim_ind', 'int'), ('plane_index', 'int')], {},
+                                 doc='`Segmentation.__init__`, patient coordinate system: the dimension index value of the position '
+                                     'dimension of a frame'))
+    # omission: effective switch and what stays in the sort index
+    om = [s for s in fn.body if isinstance(s, ast.If) and ast.unparse(s.test) == 'omit_empty_frames'
+          and any(isinstance(x, ast.If) and ast.unparse(x.test) == 'is_empty' for x in s.body)]
+    if len(om) != 1:
+        raise Unsupported('`if omit_empty_frames:` with the `is_empty` decision not found')
+    dec = [x for x in om[0].body if isinstance(x, ast.If) and ast.unparse(x.test) == 'is_empty'][0]
+    sw = [x for x in dec.body if isinstance(x, ast.Assign) and ast.unparse(x.targets[0]) == 'omit_empty_frames']
+    if len(sw) != 1 or any(isinstance(x, ast.Assign) and ast.unparse(x.targets[0]) == 'omit_empty_frames' for x in dec.orelse):
+        raise Unsupported('omit_empty_frames is no longer switched off exactly in the is_empty branch')
+    src = 'if omit_empty_frames:\n    if is_empty:\n        ' + ast.unparse(sw[0]) + '\nreturn omit_empty_frames\n'
+    texts.append(translate_block(ast.parse(src).body, 'omitEffective', [('omit_empty_frames', 'bool'), ('is_empty', 'bool')], {},
+                                 doc='`Segmentation.__init__`: the value of `omit_empty_frames` the frame loop sees'))
+    for x in dec.body:
+        if isinstance(x, ast.Assign) and ast.unparse(x.targets[0]) != 'omit_empty_frames':
+            rows.append(('omit.all_empty.' + ast.unparse(x.targets[0]), ast.unparse(x.value)))
+    for x in dec.orelse:
+        if isinstance(x, ast.Assign):
+            rows.append(('omit.some_nonempty.' + ast.unparse(x.targets[0]), ast.unparse(x.value)))
+        else:
+            raise Unsupported('omission branch: statement other than an assignment')
+    alt = [x for x in om[0].orelse]
+    rows.append(('omit.off', ' ; '.join(ast.unparse(x) for x in alt)))
+    calls = [n for n in ast.walk(om[0]) if isinstance(n, ast.Call) and ast.unparse(n.func) == 'self._get_nonempty_plane_indices']
+    if len(calls) != 1:
+        raise Unsupported('call of _get_nonempty_plane_indices not found')
+    rows.append(('omit.nonempty_call', ast.unparse(calls[0])))
+    occ = [x for x in ast.walk(om[0]) if isinstance(x, ast.Assign) and ast.unparse(x.targets[0]) == 'occupied_array']
+    rows.append(('omit.occupied_array', ' | '.join(ast.unparse(x.value) for x in occ)))
+    # how the sort index is obtained
+    rows += [('sort.call.' + k, _inline(fn, v, 1) if k == 'image_orientation' else ast.unparse(v)) for k, v in
+             [(kw.arg, kw.value) for c in [n for n in ast.walk(fn) if isinstance(n, ast.Call)
+                                           and ast.unparse(n.func) == 'self.DimensionIndexSequence.get_index_values']
+              for kw in c.keywords]]
+    giv = [n for n in ast.walk(fn) if isinstance(n, ast.Call) and ast.unparse(n.func) == 'self.DimensionIndexSequence.get_index_values']
+    if len(giv) != 1 or [ast.unparse(a) for a in giv[0].args] != ['plane_positions']:
+        raise Unsupported('call of get_index_values changed')
+    tg = [s for s in ast.walk(fn) if isinstance(s, ast.Assign) and s.value is giv[0]]
+    if len(tg) != 1:
+        raise Unsupported('result of get_index_values is not assigned')
+    rows.append(('sort.call.result', ast.unparse(tg[0].targets[0])))
+    # gathering encoded frames
+    gather = [s for s in ast.walk(fn) if isinstance(s, ast.Assign) and ast.unparse(s.targets[0]) == 'frames'
+              and isinstance(s.value, ast.ListComp)]
+    if len(gather) != 1:
+        raise Unsupported('frames = [... for fut in frame_futures] not found')
+    rows.append(('encode.gather', ast.unparse(gather[0].value)))
+    sub = [s for s in ast.walk(il) if isinstance(s, ast.Call) and ast.unparse(s.func) in ('frame_futures.append', 'frames.append')]
+    rows.append(('encode.appends', ' ; '.join(sorted(ast.unparse(s)[:60] for s in sub))))
+    # helpers
+    f2 = find_func(tree, 'Segmentation._get_nonempty_plane_indices')
+    env2 = _simple_assigns(f2)
+    if 'source_image_indices' not in env2:
+        raise Unsupported('_get_nonempty_plane_indices: source_image_indices not assigned once')
+    rows.append(('nonempty.indices', ast.unparse(env2['source_image_indices'])))
+    rets = [n for n in ast.walk(f2) if isinstance(n, ast.Return)]
+    rows.append(('nonempty.returns', ' | '.join(ast.unparse(r.value) for r in rets)))
+    iff = [n for n in f2.body if isinstance(n, ast.If)]
+    rows.append(('nonempty.all_empty_if', ' | '.join(ast.unparse(n.test) for n in iff)))
+    f3 = find_func(tree, 'Segmentation._get_pffg_item')
+    aiv = [s for s in ast.walk(f3) if isinstance(s, ast.Assign) and ast.unparse(s.targets[0]) == 'all_index_values']
+    rows.append(('pffg.all_index_values', ' | '.join(ast.unparse(s.value) for s in aiv)))
+    sel = [n for n in f3.body if isinstance(n, ast.If) and any(s in aiv for s in ast.walk(n))]
+    rows.append(('pffg.all_index_values_if', ' | '.join(ast.unparse(n.test) for n in sel)))
+    adds = [n for n in ast.walk(f3) if isinstance(n, ast.Call) and ast.unparse(n.func) == 'DataElement'
+            and n.args and isinstance(n.args[0], ast.Constant) and n.args[0].value in (0x00209157, 0x00209113, 0x0048021a, 0x0062000b)]
+    rows.append(('pffg.elements', ' ; '.join(sorted(f'{n.args[0].value:08x}={ast.unparse(n.args[2])}' for n in adds))))
+    text = _table('wiringLoop', rows, 'seg/sop.py: the frame loop of Segmentation.__init__ and its helpers (source text)')
+    return '\n\n'.join(texts) + '\n\n' + text, hashlib.sha256(repr(rows).encode()).hexdigest() + span_sha([skip[0], div[0], dec])[:8]
+
+
+def build_index_values(tree):
+    """seg/content.py `DimensionIndexSequence.get_index_values`: how the planes are ordered (patient: by the distance
+    along the normal, unique values with the index of their first occurrence; slide: rows of attribute values) and when the
+    positions are refused as not unique."""
+    fn = find_func(tree, 'DimensionIndexSequence.get_index_values')
+    rows = []
+    br = [n for n in fn.body if isinstance(n, ast.If) and ast.unparse(n.test) == 'image_orientation is not None']
+    if len(br) != 1:
+        raise Unsupported('`if image_orientation is not None:` not found')
+    b = br[0]
+    env = _block_env(b.body)
+    for name in ('normal_vector', 'origin_distances'):
+        if name not in env:
+            raise Unsupported(f'{name} not assigned once in the patient branch')
+        rows.append(('patient.' + name, ast.unparse(env[name])))
+    us = [s for s in b.body if isinstance(s, ast.Assign) and isinstance(s.value, ast.Call) and ast.unparse(s.value.func) == 'np.unique']
+    ue = [s for s in b.orelse if isinstance(s, ast.Assign) and isinstance(s.value, ast.Call) and ast.unparse(s.value.func) == 'np.unique']
+    if len(us) != 1 or len(ue) != 1:
+        raise Unsupported('np.unique calls of get_index_values changed')
+    rows.append(('patient.unique', ast.unparse(us[0])))
+    rows.append(('slide.unique', ast.unparse(ue[0])))
+    chk = [n for n in fn.body if isinstance(n, ast.If) and 'len(plane_sort_indices)' in ast.unparse(n.test)]
+    if len(chk) != 1 or not any(isinstance(x, ast.Raise) for x in chk[0].body):
+        raise Unsupported('uniqueness refusal of get_index_values changed')
+    rows.append(('refused_if', ast.unparse(chk[0].test)))
+    rows.append(('refused_with', ast.unparse([x for x in chk[0].body if isinstance(x, ast.Raise)][0].exc.func)))
+    if fn.body.index(chk[0]) < fn.body.index(b):
+        raise Unsupported('uniqueness refusal precedes the ordering')
+    rets = [n for n in ast.walk(fn) if isinstance(n, ast.Return) and n.value is not None]
+    rows.append(('returns', ' | '.join(ast.unparse(r.value) for r in rets)))
+    defaults = {a.arg: ast.unparse(d) for a, d in zip(fn.args.args[-len(fn.args.defaults):], fn.args.defaults)}
+    rows.append(('default.handedness', defaults.get('handedness', '?')))
+    text = _table('wiringIndexValues', rows, 'seg/content.py get_index_values: ordering of planes (source text)')
+    return text, hashlib.sha256(repr(rows).encode()).hexdigest()
+
+
+def build_slice_distances(tree):
+    """spatial.py `_get_slice_distances` (the distance of a plane along the normal) and the normal of `get_normal_vector`"""
+    fn = find_func(tree, '_get_slice_distances')
+    body = strip_doc(fn.body)
+    rows = [('slice_distances.body', ' ; '.join(ast.unparse(s) for s in body))]
+    gn = find_func(tree, 'get_normal_vector')
+    hand = [s for s in strip_doc(gn.body) if isinstance(s, ast.If) and ast.unparse(s.test) == 'handedness_ == AxisHandedness.RIGHT_HANDED']
+    if len(hand) != 1:
+        raise Unsupported('get_normal_vector: handedness branch changed')
+    rows.append(('normal.right_handed', ' ; '.join(ast.unparse(s) for s in hand[0].body)))
+    rows.append(('normal.left_handed', ' ; '.join(ast.unparse(s) for s in hand[0].orelse)))
+    loops = [s for s in strip_doc(gn.body) if isinstance(s, ast.For) and ast.unparse(s.iter) == 'index_convention_']
+    if len(loops) != 1:
+        raise Unsupported('get_normal_vector: loop over the index convention changed')
+    rows.append(('normal.columns', ast.unparse(loops[0]).replace('\n', ' ; ')))
+    cs = {ast.unparse(s.targets[0]): ast.unparse(s.value) for s in strip_doc(gn.body) if isinstance(s, ast.Assign)
+          and ast.unparse(s.targets[0]) in ('row_cosines', 'column_cosines')}
+    rows.append(('normal.cosines', repr(sorted(cs.items()))))
+    text = _table('wiringDistances', rows, 'spatial.py: distance of a plane along the normal, and the normal (source text)')
+    return text, hashlib.sha256(repr(rows).encode()).hexdigest()
+
+
+TARGETS['TC03loop'] = {'file': 'seg/sop.py', 'build': build_loop}
+TARGETS['TC03idxval'] = {'file': 'seg/content.py', 'build': build_index_values}
+TARGETS['TC03dist'] = {'file': 'spatial.py', 'build': build_slice_distances}
